@@ -430,12 +430,14 @@ func (t *TableEngine) evalResults(rs []ast.Expr, i int, acc []string, st *tstate
 	}
 	if cv, ok := t.p.ConstVal(r); ok {
 		name := cv
-		if id, ok := unparen(r).(*ast.Ident); ok {
-			if c, ok := t.p.ObjOf(id).(*types.Const); ok && c.Pkg() != nil {
-				name = c.Name()
+		if _, isNamed := tp.(*types.Named); isNamed {
+			if id, ok := unparen(r).(*ast.Ident); ok {
+				if c, ok := t.p.ObjOf(id).(*types.Const); ok && c.Pkg() != nil {
+					name = c.Name()
+				}
+			} else if sel, ok := unparen(r).(*ast.SelectorExpr); ok {
+				name = sel.Sel.Name
 			}
-		} else if sel, ok := unparen(r).(*ast.SelectorExpr); ok {
-			name = sel.Sel.Name
 		}
 		t.evalResults(rs, i+1, append(append([]string{}, acc...), name), st, k)
 		return
@@ -526,14 +528,18 @@ func (t *TableEngine) evalCompare(op token.Token, x, y ast.Expr, st *tstate, k f
 		if p.isConstLike(x) && !p.isConstLike(y) {
 			x, y = y, x
 		}
-		if p.isConstLike(y) && !isOrdered(p.TypeOf(x)) {
+		if p.isConstLike(y) {
 			c := "nil"
 			if cv, ok := p.ConstVal(y); ok {
 				c = cv
-				if id, ok := y.(*ast.Ident); ok {
-					c = id.Name
-				} else if sel, ok := y.(*ast.SelectorExpr); ok {
-					c = sel.Sel.Name
+				// enum-like constants (named types) are identified by name,
+				// plain numbers and strings by value
+				if _, isNamed := p.TypeOf(y).(*types.Named); isNamed {
+					if id, ok := y.(*ast.Ident); ok {
+						c = id.Name
+					} else if sel, ok := y.(*ast.SelectorExpr); ok {
+						c = sel.Sel.Name
+					}
 				}
 			}
 			t.evalEnum(p.Canon(x), x, c, st, func(s *tstate, v bool) { k(s, v == (op == token.EQL)) })
@@ -596,24 +602,6 @@ func (t *TableEngine) evalCompare(op token.Token, x, y ast.Expr, st *tstate, k f
 		s.hist = append(s.hist, Decision{atom, ordStr(part.m)})
 		k(s, part.v)
 	}
-}
-
-func isOrdered(t types.Type) bool {
-	if t == nil {
-		return false
-	}
-	b, ok := t.Underlying().(*types.Basic)
-	if !ok {
-		return false
-	}
-	// named integer enums (states, types) are compared with constants by
-	// equality only; treat them as enums unless they are plain numerics.
-	if _, named := t.(*types.Named); named {
-		if n := t.(*types.Named); n.Obj().Pkg() != nil && n.Obj().Pkg().Path() != "time" {
-			return false
-		}
-	}
-	return b.Info()&(types.IsInteger|types.IsFloat|types.IsString) != 0 && b.Info()&types.IsUntyped == 0
 }
 
 func (t *TableEngine) evalEnum(subj string, x ast.Expr, c string, st *tstate, k func(*tstate, bool)) {
